@@ -111,8 +111,9 @@ def main():
     if len(sys.argv) >= 4 and sys.argv[1] == "replay":
         prop, path = sys.argv[2], sys.argv[3]
         spec = props.PROPS[prop]
-        if spec.get("custom"):
-            return spec["custom"].replay(prop, path)
+        if spec.get("custom_module"):
+            import importlib
+            return importlib.import_module(spec["custom_module"]).replay(prop, path)
         exe = build.build_engine()
         rec = json.load(open(path))
         rc, out = replay_once(exe, prop, rec["case"])
@@ -128,8 +129,9 @@ def main():
     jobs = int(os.environ.get("VERIF_JOBS", "16"))
     spec = props.PROPS[prop]
     t0 = time.time()
-    if spec.get("custom"):
-        return spec["custom"].run(prop, tier, seed, jobs)
+    if spec.get("custom_module"):
+        import importlib
+        return importlib.import_module(spec["custom_module"]).run(prop, tier, seed, jobs)
     exe = build.build_engine()
     outdir = os.path.join(ROOT, "build", "run", prop)
     r = run_engine(exe, prop, tier, seed, outdir, jobs)
